@@ -114,12 +114,13 @@ func c08JudgeDoc(c *fw.Ctx, t *lib.Tree, kind string, d []byte, limits []uint32,
 		if L != 0 && int(L) <= op {
 			continue
 		}
-		key := fw.InputKey(d, L, "Detect")
-		c.Trace(func() (string, any) { return key, fw.MkInCase(kind, d, L, "Detect", "") })
+		entry := pickEntry(c)
+		key := fw.InputKey(d, L, entry)
+		c.Trace(func() (string, any) { return key, fw.MkInCase(kind, d, L, entry, "") })
 		var ch lib.Chain
 		var m *mimetype.MIME
-		ok := c.Guard(key, func() any { return fw.MkInCase(kind, d, L, "Detect", "panic") }, func() {
-			m = lib.Detect(d, L)
+		ok := c.Guard(key, func() any { return fw.MkInCase(kind, d, L, entry, "panic") }, func() {
+			m = detectEntry(d, L, entry)
 			ch = lib.ChainOf(m)
 		})
 		c.Eval(1)
@@ -146,7 +147,7 @@ func c08JudgeDoc(c *fw.Ctx, t *lib.Tree, kind string, d []byte, limits []uint32,
 			}
 			c.Violate("json-not-recognised", key,
 				fmt.Sprintf("valid JSON document (%s) reported as %s: %s; doc %s", mode, ch, why, fw.Quote(d, 100)),
-				fw.MkInCase(kind, d, L, "Detect", "valid JSON not reported in the application/json family"))
+				fw.MkInCase(kind, d, L, entry, "valid JSON not reported in the application/json family"))
 		}
 		if classify && truncated && int(L) < len(d) && int(L) >= 1 {
 			prev := byte('^')
@@ -287,6 +288,7 @@ func init() {
 				fmt.Println("bad payload:", err)
 				return
 			}
+			forcedEntry = ic.Entry
 			c08JudgeDoc(c, baseTree(), ic.Kind, ic.In, []uint32{ic.Limit}, false)
 		},
 		Finish: func(a *fw.Agg) error {
